@@ -239,6 +239,20 @@ class Lib:
             symbolic = isinstance(idx, Sym) and concrete_int(lift_int(idx)) is None if isinstance(idx, Sym) \
                 and idx.ty == INT else (isinstance(idx, tuple) and any(
                     isinstance(x, Sym) and concrete_int(lift_int(x)) is None for x in idx))
+            if symbolic and ex.opt.get("ghost_key"):
+                # a dict filled under symbolic keys, observed at ONE arbitrary
+                # ghost key (contract parameters named by the option): the
+                # holder object gets g_present / g_value = what the dict holds
+                # at that key (proved for every key, since the key is arbitrary)
+                holder, names = ex.opt["ghost_key"]
+                gkey = tuple(ex.inputs[n] for n in names)
+                kt = idx if isinstance(idx, tuple) else (idx,)
+                same = z3.And(*[lift_int(a) == lift_int(b) for a, b in zip(kt, gkey)])
+                h = ex.inputs[holder]
+                if ex.fork(same, "the key is the ghost key"):
+                    h.fields["g_present"] = True
+                    h.fields["g_value"] = value
+                return
             if symbolic and ex.opt.get("ghost_dict"):
                 # a dict filled under symbolic keys: kept as the ghost list of
                 # (key, value) insertions, in order (spec function entries());
